@@ -38,6 +38,13 @@ type Prog struct {
 
 	funcs    map[string][]*ssa.Function // import path -> all source functions incl. methods, closures
 	fileText map[string][]byte
+
+	// Normalisation (inline.go): helpers outside the rules' vocabulary that
+	// were merged into their callers.  Absorbed ones have no caller left and
+	// are hidden from Funcs.
+	Inlined  map[*ssa.Function]int
+	Absorbed map[*ssa.Function]bool
+	InlineLog []string
 }
 
 // LoadOpts selects a build configuration.
@@ -46,6 +53,8 @@ type LoadOpts struct {
 	GOOS   string
 	GOARCH string
 	Tests  bool
+	// NoInline switches the normalisation off (debugging, vocabulary listing).
+	NoInline bool
 }
 
 // RepoRoot returns the tree to analyse: $GSA_REPO or /repo.
@@ -126,7 +135,72 @@ func Load(o LoadOpts) (*Prog, error) {
 			p.SPkgs[path] = sp
 		}
 	}
+	if !o.NoInline && os.Getenv("GSA_NOINLINE") == "" {
+		if err := p.normalise(); err != nil {
+			return nil, err
+		}
+	}
 	return p, nil
+}
+
+// normalise inlines the helpers the rules do not know by name (inline.go).
+func (p *Prog) normalise() (err error) {
+	defer func() {
+		if r := recover(); r != nil {
+			err = fmt.Errorf("normalisation failed: %v", r)
+		}
+	}()
+	il := NewInliner(func(fn *ssa.Function) bool { return KnownFunc(FuncName(fn)) })
+	var paths []string
+	for path := range p.SPkgs {
+		if strings.HasPrefix(path, ModPath) {
+			paths = append(paths, path)
+		}
+	}
+	sort.Strings(paths)
+	var all []*ssa.Function
+	for _, path := range paths {
+		for _, f := range p.Funcs(path) {
+			if strings.HasSuffix(p.Fset.Position(f.Pos()).Filename, "_test.go") {
+				continue
+			}
+			all = append(all, f)
+		}
+	}
+	for _, f := range all {
+		il.Normalise(f)
+	}
+	p.Inlined, p.InlineLog = il.Inlined, il.Log
+	p.Absorbed = map[*ssa.Function]bool{}
+	if len(il.Inlined) > 0 {
+		used := map[*ssa.Function]bool{}
+		var rands []*ssa.Value
+		for _, path := range paths {
+			for _, f := range p.Funcs(path) {
+				if il.Inlined[f] > 0 {
+					// references from other absorbed helpers do not count; handled below
+				}
+				for _, b := range f.Blocks {
+					for _, in := range b.Instrs {
+						rands = in.Operands(rands[:0])
+						for _, r := range rands {
+							if g, ok := (*r).(*ssa.Function); ok && il.Inlined[g] > 0 && g != f {
+								used[g] = true
+							}
+						}
+					}
+				}
+			}
+		}
+		for g := range il.Inlined {
+			if !used[g] {
+				p.Absorbed[g] = true
+			}
+		}
+		// the cached function lists still contain the absorbed helpers
+		p.funcs = map[string][]*ssa.Function{}
+	}
+	return nil
 }
 
 // NumPackages is the number of golibs packages in the program.
@@ -188,7 +262,7 @@ func (p *Prog) Funcs(pkg string) []*ssa.Function {
 	var out []*ssa.Function
 	var add func(fn *ssa.Function)
 	add = func(fn *ssa.Function) {
-		if fn == nil || seen[fn] || len(fn.Blocks) == 0 {
+		if fn == nil || seen[fn] || len(fn.Blocks) == 0 || p.Absorbed[fn] {
 			return
 		}
 		seen[fn] = true
